@@ -62,4 +62,29 @@ theorem ch11_sec_checksum_std (s : State) (h : WFs s) :
     exact slice_mid _ _ _ _ _ (by simp [hH, hA, hB]) (by simp [hH, hA, hB, hC])
   rw [e1 _ _ _ _ _ (h24 _ _) (by simp) (by simp) (by simp), e2 _ _ _ _ _ (h24 _ _) (by simp) (by simp) (by simp)]
 
+/-! ### review additions: joint witnesses for `WFn` / `WFs` -/
+
+/-- no secondary header; header words 0xEB25, 0xFFFF, …, 0xFFFF, 0xFFFF, 0xFFFF: the 16-bit sum carries repeatedly -/
+def ch11ExampleN : State :=
+  { fresh with
+    channelID := 0xFFFF, sequence := 255, datatype := 0x40, relativetimecounter := 2 ^ 48 - 1, payload := [1, 2, 3] }
+
+/-- IEEE-1588 secondary header with the largest seconds value -/
+def ch11ExampleS : State :=
+  { fresh with
+    channelID := 7, packetflag := 0x84, has_secondary_header := true, ts_source := TS_IEEE1558,
+    ptptime := ⟨0xFFFFFFFF, 999999999⟩, payload := [0xFF, 0xFF, 0xFF, 0xFF, 0xFF] }
+
+/-- witnesses for `ch11_hdr_checksum_std` (both disjuncts) and `ch11_sec_checksum_std`, with the emitted checksum
+    bytes: header checksum 0x2A45 at 22..23, resp. 0xEBE6; secondary-header checksum 0x0699 at 34..35 -/
+example : WFn ch11ExampleN ∧ (WFn ch11ExampleS ∨ WFs ch11ExampleS) ∧ WFs ch11ExampleS ∧
+    ((pack ch11ExampleN).2.toOption.map fun b => slice b 22 24) = some [0x45, 0x2A] ∧
+    ((pack ch11ExampleS).2.toOption.map fun b => (slice b 22 24, slice b 34 36)) = some ([0xE6, 0xEB], [0x99, 0x06]) := by
+  refine ⟨by unfold WFn; decide, Or.inr (by unfold WFs; decide), by unfold WFs; decide, by decide +kernel, by decide +kernel⟩
+
+/-- witnesses for the hypotheses of the two function-level theorems, and the remaining branch (empty buffer) -/
+example : ([0xFF, 0xFF, 0x02, 0x00] : Bytes).length % 2 = 0 ∧ 0 < ([0xFF, 0xFF, 0x02, 0x00] : Bytes).length ∧
+    ([0xFF, 0xFF, 0x02] : Bytes).length % 2 = 1 ∧
+    (match getChecksumBuf [] with | .error .type => true | _ => false) = true := by decide
+
 end Acra.Props.C07
